@@ -104,7 +104,20 @@ func Prop(c Case, x *h.Ctx) *h.Violation {
 		v := call.V.Bytes()
 		dctl.FailNext = call.Fault == "data"
 		ictl.FailNext = call.Fault == "index"
-		err := w.WriteNext(call.K, v)
+		// the writer gets private copies which are scribbled over after the call: a caller may re-use its buffers,
+		// so nothing the table or its metadata needs later may alias them
+		kc := append([]byte{}, call.K...)
+		var vc []byte
+		if v != nil {
+			vc = append([]byte{}, v...)
+		}
+		err := w.WriteNext(kc, vc)
+		for j := range kc {
+			kc[j] = 0xEE
+		}
+		for j := range vc {
+			vc[j] = 0xEE
+		}
 		dctl.FailNext, ictl.FailNext = false, false
 		mustReject := hasAccepted && bytes.Compare(call.K, lastAccepted) <= 0
 		if mustReject {
